@@ -1,5 +1,6 @@
 import Acra.Lemmas.Ch11MIL1553
 import Acra.Lemmas.ReviewC08Records
+import Acra.Lemmas.RecordsErr
 namespace Acra.Props.C08
 open Acra.Py Acra.Model.Ch11Pay Acra.Model.Ch11Pay.MIL1553 Acra.Gen.Ch11MIL1553 Acra.Lemmas.Ch11MIL1553
 
@@ -172,5 +173,153 @@ theorem MILMsg_unpack_outcomes (t : Msg) (buf : Bytes) :
     | (simp; done)
     | (rename_i e h; rw [h] at hi; simpa using hi)
     | (rename_i e h; have := structUnpackFrom_error _ _ _ _ h; subst this; simp)
+
+/-! ### packet-level outcome list (review B4): `MILSTD1553DataPacket.unpack` returns, or raises `struct.error`
+    (channel-specific word incomplete), a bare `Exception` (`ipts_source=None`) or `AttributeError` (an
+    `ipts_source` that is neither `TS_CH4` nor `TS_IEEE1558`); each kind characterised on the bytes -/
+
+/-- the time-stamp decoder succeeds on exactly 8 bytes when a time stamp kind is set -/
+theorem Ipts_unpack_ok8 (t : Ipts) (hn : t ≠ .none) (b : Bytes) (h : b.length = 8) : ∃ i, Ipts.unpack t b = .ok i := by
+  cases t with
+  | none => exact absurd rfl hn
+  | rtc c =>
+    simp only [Ipts.unpack, structUnpack, h, Acra.Gen.Ch11PayTs.RTC_unpack_fmt0, Fmt.size, codesSize, Code.size,
+      unpackCodes, if_true]
+    exact ⟨_, rfl⟩
+  | ptp a c =>
+    simp only [Ipts.unpack, structUnpack, h, Acra.Gen.Ch11PayTs.PTP_unpack_fmt0, Fmt.size, codesSize, Code.size,
+      unpackCodes, if_true]
+    exact ⟨_, rfl⟩
+
+/-- a message decoder with a time-stamp kind accepts every buffer that holds the 14 header bytes
+    (the loop condition `offset + 14 < len` guarantees 15) -/
+theorem MILMsg_unpack_ok_of_len (m : Msg) (hn : m.ipts ≠ .none) (b : Bytes) (h : 14 ≤ b.length) :
+    ∃ m' n, Msg.unpack m b = (m', .ok n) := by
+  obtain ⟨i, hi⟩ := Ipts_unpack_ok8 m.ipts hn (b.take 8) (by simp; omega)
+  have : structUnpackFrom MSG_unpack_fmt0 b 8 =
+      .ok [decInt false ((b.drop 8).take 2), decInt false (((b.drop 8).drop 2).take 2),
+           decInt false ((((b.drop 8).drop 2).drop 2).take 2)] := by
+    simp only [structUnpackFrom, MSG_unpack_fmt0, Fmt.size, codesSize, Code.size, unpackCodes]
+    have : 8 + (2 + (2 + (2 + 0))) ≤ b.length := by omega
+    simp only [this, if_true]
+  simp only [Msg.unpack, hi, this]
+  exact ⟨_, _, rfl⟩
+
+/-- the prototype message the packet decoder creates carries a time-stamp kind -/
+theorem MIL_proto_ipts (p : Packet) (m0 : Msg) (h : p.proto = .ok m0) : m0.ipts ≠ .none := by
+  simp only [Packet.proto] at h
+  split at h
+  · cases h
+  · rename_i s _
+    split at h
+    · rename_i i hi
+      simp only [Except.ok.injEq] at h
+      subst h
+      simp only [iptsOfSource] at hi
+      split at hi
+      · cases hi; simp [Msg.fresh]
+      · split at hi
+        · cases hi; simp [Msg.fresh]
+        · cases hi
+    · cases h
+
+/-- exactly: `struct.error` iff fewer than 4 bytes; otherwise the exception of the constructor call
+    `MILSTD1553Message(self._ipts_source)` — raised iff the loop is entered at all (more than 18 bytes) —
+    and a value in every other case: the message decoder itself cannot fail inside the loop -/
+theorem MIL_unpack_error_iff (t : Packet) (buf : Bytes) (e : Err) :
+    (Packet.unpack t buf).2 = .error e ↔
+      (buf.length < 4 ∧ e = .struct) ∨ (18 < buf.length ∧ t.proto = .error e) := by
+  simp only [Packet.unpack]
+  by_cases h4 : 4 ≤ buf.length
+  · have hc : structUnpackFrom PKT_unpack_fmt0 buf 0 = .ok [decInt false ((buf.drop 0).take 4)] := by
+      simp only [structUnpackFrom, PKT_unpack_fmt0, Fmt.size, codesSize, Code.size, unpackCodes]
+      have : 0 + (4 + 0) ≤ buf.length := by omega
+      simp only [this, if_true]
+    simp only [hc]
+    cases hp : t.proto with
+    | error e0 =>
+      by_cases h18 : 18 < buf.length
+      · have hd : decOff (decMsg (.error e0)) more1553 buf (buf.length + 1) 4 = .error e0 := by
+          unfold decOff
+          have : more1553 4 buf.length = true := by simp [more1553]; omega
+          simp only [this, if_true, decMsg]
+        simp only [hd, Except.error.injEq]
+        constructor
+        · rintro rfl; exact Or.inr ⟨h18, rfl⟩
+        · rintro (⟨h, _⟩ | ⟨_, h⟩)
+          · omega
+          · exact h
+      · have hd : decOff (decMsg (.error e0)) more1553 buf (buf.length + 1) 4 = .ok [] := by
+          unfold decOff
+          have : more1553 4 buf.length = false := by simp [more1553]; omega
+          simp only [this, Bool.false_eq_true, if_false]
+        simp only [hd, reduceCtorEq, false_iff]
+        rintro (⟨h, _⟩ | ⟨h, _⟩) <;> omega
+    | ok m0 =>
+      have hn := MIL_proto_ipts t m0 hp
+      have key := Acra.Lemmas.RecordsErr.decOff_error_iff (decMsg (.ok m0)) more1553 buf
+        (decMsg_progress _ (by simp)) (buf.length + 1) 4 (by omega)
+      cases hd : decOff (decMsg (.ok m0)) more1553 buf (buf.length + 1) 4 with
+      | ok ms =>
+        simp only [reduceCtorEq, false_iff]
+        rintro (⟨h, _⟩ | ⟨_, h⟩)
+        · omega
+        · cases h
+      | error e' =>
+        exfalso
+        obtain ⟨ms, o, _, hm, he⟩ := (key e').1 hd
+        simp only [more1553, decide_eq_true_eq] at hm
+        obtain ⟨m', n, hok⟩ := MILMsg_unpack_ok_of_len m0 hn (buf.drop o) (by simp; omega)
+        simp only [decMsg, hok] at he
+        cases he
+  · have hc : structUnpackFrom PKT_unpack_fmt0 buf 0 = .error .struct := by
+      simp only [structUnpackFrom, PKT_unpack_fmt0, Fmt.size, codesSize, Code.size]
+      have : ¬ 0 + (4 + 0) ≤ buf.length := by omega
+      simp only [this, if_false]
+    simp only [hc, Except.error.injEq]
+    constructor
+    · rintro rfl; exact Or.inl ⟨by omega, rfl⟩
+    · rintro (⟨_, rfl⟩ | ⟨h, _⟩)
+      · rfl
+      · omega
+
+/-- the outcome list — nothing else, in particular never `fuel` -/
+theorem MIL_unpack_outcomes (t : Packet) (buf : Bytes) :
+    (Packet.unpack t buf).2 = .ok () ∨ (Packet.unpack t buf).2 = .error .struct ∨
+    ((Packet.unpack t buf).2 = .error .generic ∧ t.ipts_source = Option.none) ∨
+    ((Packet.unpack t buf).2 = .error .attribute ∧ ∃ s, t.ipts_source = some s ∧ iptsOfSource s = Option.none) := by
+  cases hr : (Packet.unpack t buf).2 with
+  | ok u => exact Or.inl rfl
+  | error e =>
+    rcases (MIL_unpack_error_iff t buf e).1 hr with ⟨_, rfl⟩ | ⟨_, hp⟩
+    · exact Or.inr (Or.inl rfl)
+    · simp only [Packet.proto] at hp
+      split at hp
+      · rename_i hs
+        cases hp
+        exact Or.inr (Or.inr (Or.inl ⟨rfl, hs⟩))
+      · rename_i s hs
+        split at hp
+        · cases hp
+        · rename_i hi
+          cases hp
+          exact Or.inr (Or.inr (Or.inr ⟨rfl, s, hs, hi⟩))
+
+/-- every outcome is reachable: `wMIL` accepted; 3 bytes → `struct.error`; `ipts_source=None` → bare `Exception`;
+    `ipts_source=7` → `AttributeError`; and with `ipts_source=None` a buffer of at most 18 bytes is ACCEPTED (the
+    loop body, and with it the failing constructor call, is never reached) -/
+example : (Packet.unpack ⟨[], 0, 0, some 0⟩ wMIL).2 = .ok () := by rfl
+example : (Packet.unpack ⟨[], 0, 0, some 0⟩ (wMIL.take 3)).2 = .error .struct := by rfl
+example : (Packet.unpack ⟨[], 0, 0, Option.none⟩ wMIL).2 = .error .generic := by rfl
+example : (Packet.unpack ⟨[], 0, 0, some 7⟩ wMIL).2 = .error .attribute := by rfl
+example : (Packet.unpack ⟨[], 0, 0, Option.none⟩ (wMIL.take 18)).2 = .ok () := by rfl
+
+/-- joint witnesses for the helper lemmas above: `Ipts_unpack_ok8` (a PTP stamp decoder on 8 bytes), `MILMsg_unpack_ok_of_len`
+    (an RTC message decoder on the 15 bytes the loop condition guarantees), `MIL_proto_ipts` (the prototype for source 1) -/
+example : (Ipts.ptp 0 0 ≠ .none) ∧ ([1, 0, 0, 0, 2, 0, 0, 0] : Bytes).length = 8 ∧
+    Ipts.unpack (.ptp 0 0) [1, 0, 0, 0, 2, 0, 0, 0] = .ok (.ptp 2 1) := ⟨by decide, rfl, rfl⟩
+example : (Msg.fresh (.rtc 0)).ipts ≠ .none ∧ 14 ≤ (wMIL.drop 18).length ∧
+    (Msg.unpack (Msg.fresh (.rtc 0)) ((wMIL.drop 18).take 15)).2 = .ok 17 := ⟨by decide, by decide, rfl⟩
+example : Packet.proto ⟨[], 0, 0, some 1⟩ = .ok (Msg.fresh (.ptp 0 0)) ∧ (Msg.fresh (.ptp 0 0)).ipts ≠ .none := ⟨rfl, by decide⟩
 
 end Acra.Props.C08
